@@ -2176,14 +2176,14 @@ argument `default_label_format` (e.g. 'x{}').
         for vg in self._groups:
             if len(vg) == 0:
                 continue
-            if isinstance(vg, SingletonVariableGroup):
-                yield vg.name
-                varid += 1
-                continue
             begin = vg[0]
             while varid < begin:
                 yield default_label_format.format(varid)
                 varid += 1
+            if isinstance(vg, SingletonVariableGroup):
+                yield vg.name
+                varid += 1
+                continue
             yield from vg.label()
             varid += len(vg)
         while varid <= end:
